@@ -160,6 +160,11 @@ func (e *FnEnc) encodeBody() {
 		e.assert(e.typeFacts(v))
 	}
 	e.assert("(not (select " + allocArr + " 0))")
+	e.assumePkgInvariants()
+	if e.skipPkgInv && fn.Pkg != nil {
+		// encoding a package's synthetic init to establish its invariants: it has not run yet
+		e.assert(snot(e.heapArr("G/"+fn.Pkg.Pkg.Name()+".init$guard/", "Bool")))
+	}
 	// preconditions
 	env := e.entryEnv()
 	for _, r := range e.c.Requires {
